@@ -1,5 +1,6 @@
 mod drive;
 mod exec;
+mod hexvec;
 mod mergevec;
 mod model;
 mod observers;
@@ -38,6 +39,12 @@ fn main() {
         "drive" => cmd_drive(&m),
         "record" => cmd_record(&m),
         "merge" => cmd_merge(&m),
+        "hexvec" => {
+            let paths: Vec<PathBuf> = m.get("vectors").expect("--vectors").iter().map(PathBuf::from).collect();
+            let j = hexvec::run(&paths, &PathBuf::from(one(&m, "obs-out").expect("--obs-out")));
+            println!("{j}");
+            0
+        }
         _ => {
             eprintln!("usage: sodg-verif-harness <product|...> [--key value ...]");
             2
